@@ -166,6 +166,17 @@ func (e *Engine) schedPick(opts []int) int {
 	return e.chooseAmong(opts)
 }
 
+// liveThreads counts the threads that have not finished.
+func (e *Engine) liveThreads() int {
+	n := 0
+	for _, t := range e.threads {
+		if !t.done {
+			n++
+		}
+	}
+	return n
+}
+
 // advanceIdle: every thread is blocked. With a pinned concrete clock, time jumps to the
 // earliest pending timer (what the runtime does for sleeping goroutines and what a synctest
 // bubble does for the native replay); reports whether the clock moved.
